@@ -5,7 +5,7 @@ from common import *
 import e2, mirdump, kani
 from e2 import *
 from mirsym import models as MD
-from props import C07, C07_e2, C15, C16, C11, handler
+from props import rpcpath, C07, C07_e2, C15, C16, C11, handler
 
 PROP = 'C06'
 
@@ -21,8 +21,11 @@ def ob_handle_confines_errors(report):
         def m_do_handle(ex, p, call, k):
             p.events.append(Event('do-handle', 'do_handle', ()))
             k(p, Sym('do_handle_future', 'DoHandle'))
-        ex = e2.executor('anemo', [(r'BiStreamRequestHandler::do_handle$', m_do_handle)], max_depth=1)
-        parent = find_method(ex.prog, 'BiStreamRequestHandler', 'handle')
+        prog, _ = mirdump.program('anemo')
+        inner = rpcpath.stream_handler_fn(prog)                 # `do_handle` (or whatever it is called now)
+        iname = inner.name.rsplit('::', 1)[-1]
+        ex = e2.executor('anemo', [(r'BiStreamRequestHandler::%s$' % re.escape(iname), m_do_handle)], max_depth=1)
+        parent = e2.find_role_method(ex.prog, 'BiStreamRequestHandler', ['handle'], r'(^|::)%s$' % re.escape(iname), ret_re=r'Poll<\(\)>')
         fn = find_closure(ex.prog, parent, [0])
         p, args = coroutine_start(ex, fn)
         res = ex.run(fn, args, p)
